@@ -56,6 +56,7 @@ def run(ctx):
     ctx.rule("E8", "OpSet::seq_length: the widths summed for a text at historical heads come from the one-top-op-per-element iterator that OpSet::text reads (sibling agreement), not from every visible op")
     ctx.rule("E9", "Automerge::get_marks_for: the index parameter is compared with an accumulation of Op::width results, never handed to an element-counting adaptor (nth / skip / advance_by)")
     ctx.rule("W4", "C02 W4 re-run")
+    ctx.rule("W7", "C02 W7 re-run")
     ctx.rule("W6", "OpSet::add_succ_with_undo: the exposing store goes through OpSet::expose, which sets the top flag and the text-index width together")
     ctx.rule("E6b", "a TransactionInner function that looks an element up by index and logs a DeleteSeq addresses the patch by the element's start as the lookup reports it (OpsFound.index is in the provenance of the patch index), not by the caller's raw index alone (which may fall inside a wide element)")
     ctx.rule("E10", "no load path that carries LoadOptions builds its document with Automerge::new() (platform-default encoding): an empty input still yields a document in options.text_encoding")
